@@ -3,8 +3,13 @@ import json, os, re, shutil, subprocess, sys, tempfile, time, hashlib
 from concurrent.futures import ThreadPoolExecutor
 
 VERIF = os.path.dirname(os.path.dirname(os.path.abspath(__file__)))   # /verif, or a snapshot of it (vp run)
-REPO = "/repo"
-BUILD = os.path.join(VERIF, ".build")
+# The checks decide /repo's working tree.  VERIF_REPO redirects them to another checkout (used only by
+# bin/seedtool to try seeded changes in a scratch worktree without touching /repo); binaries, evidence and
+# replays of such a run go to a private directory so that nothing of it can be mistaken for a result on /repo.
+REPO = os.environ.get("VERIF_REPO") or "/repo"
+ALT = os.path.realpath(REPO) != "/repo"
+BUILD = os.path.join(VERIF, ".build" if not ALT else ".build/alt-" + hashlib.sha1(os.path.realpath(REPO).encode()).hexdigest()[:10])
+OUTROOT = VERIF if not ALT else BUILD
 SPEC = os.path.join(VERIF, "spec")
 GOENV = dict(os.environ, GOFLAGS="-mod=mod", GOPROXY="off", GOSUMDB="off", GOTOOLCHAIN="local")
 NCPU = max(2, min(16, os.cpu_count() or 4))
@@ -21,13 +26,21 @@ def log(*a):
 def build_harness(cmds=("worker",)):
     """Rebuilds the harness binaries against /repo's current working tree with hooks enabled."""
     os.makedirs(BUILD, exist_ok=True)
-    shutil.copyfile(os.path.join(REPO, "go.sum"), os.path.join(VERIF, "harness", "go.sum"))
+    hdir = os.path.join(VERIF, "harness")
+    modargs = []
+    if not ALT:
+        shutil.copyfile(os.path.join(REPO, "go.sum"), os.path.join(hdir, "go.sum"))
+    else:
+        mod = open(os.path.join(hdir, "go.mod")).read().replace("replace rcproxy => /repo", "replace rcproxy => " + os.path.realpath(REPO))
+        open(os.path.join(BUILD, "alt.mod"), "w").write(mod)
+        shutil.copyfile(os.path.join(REPO, "go.sum"), os.path.join(BUILD, "alt.sum"))
+        modargs = ["-modfile", os.path.join(BUILD, "alt.mod")]
     for c in cmds:
         out = os.path.join(BUILD, c)
-        p = subprocess.run(["go", "build", "-tags", "verif", "-o", out, "./cmd/" + c],
-                           cwd=os.path.join(VERIF, "harness"), env=GOENV, capture_output=True, text=True)
+        p = subprocess.run(["go", "build"] + modargs + ["-tags", "verif", "-o", out, "./cmd/" + c],
+                           cwd=hdir, env=GOENV, capture_output=True, text=True)
         if p.returncode != 0:
-            raise Inconclusive("harness does not build against /repo:\n" + p.stdout + p.stderr)
+            raise Inconclusive("harness does not build against %s:\n" % REPO + p.stdout + p.stderr)
     return BUILD
 
 
@@ -121,10 +134,18 @@ TLC_JAR = "/opt/veriftools/tla/tla2tools.jar"
 def tlc(module, cfg, workdir, workers=1, extra=(), timeout=3600, javaopts=(), heap=None):
     """Runs TLC in workdir (which must already contain the .tla/.cfg files). Returns (rc, stdout)."""
     md = tempfile.mkdtemp(prefix="md-", dir=workdir)
-    cmd = ["tlc", "-workers", str(workers), "-metadir", md, "-config", cfg] + list(extra) + [module]
+    # java is started directly rather than through the `tlc` wrapper: a stack size given in JAVA_TOOL_OPTIONS does
+    # not reach the main thread (which evaluates the ASSUMEs and constant definitions: an intermittent
+    # StackOverflowError at start-up, depending on how much of TLC the JIT had compiled by then), and TLC's
+    # temporary files (unpacked standard modules) go to the run's scratch directory instead of /tmp
+    jopts = list(javaopts)
+    if not any(o.startswith("-Xss") for o in jopts):
+        jopts.append("-Xss64m")
+    cmd = ["java"] + jopts + ["-XX:+UseParallelGC", "-Djava.io.tmpdir=" + md,
+           "-cp", TLC_JAR + ":/opt/veriftools/tla/CommunityModules-deps.jar", "tlc2.TLC",
+           "-workers", str(workers), "-metadir", md, "-config", cfg] + list(extra) + [module]
     env = dict(os.environ)
-    if javaopts:
-        env["JAVA_TOOL_OPTIONS"] = " ".join(javaopts)
+    env.pop("JAVA_TOOL_OPTIONS", None)
     try:
         p = subprocess.run(cmd, cwd=workdir, capture_output=True, text=True, timeout=timeout, env=env)
         return p.returncode, p.stdout + p.stderr
@@ -376,17 +397,17 @@ def known_findings():
 
 
 def write_evidence(pid, tier, seed, level, coverage, wall, violations, assumptions):
-    os.makedirs(os.path.join(VERIF, "evidence"), exist_ok=True)
+    os.makedirs(os.path.join(OUTROOT, "evidence"), exist_ok=True)
     ev = {"property_id": pid, "tier": tier, "seed": seed, "level": level, "coverage": coverage,
           "assumptions": assumptions, "wall_s": round(wall, 2), "violations": violations}
-    with open(os.path.join(VERIF, "evidence", pid + ".json"), "w") as f:
+    with open(os.path.join(OUTROOT, "evidence", pid + ".json"), "w") as f:
         json.dump(ev, f, indent=1)
 
 
 def save_replay(pid, payload):
-    os.makedirs(os.path.join(VERIF, "replays"), exist_ok=True)
+    os.makedirs(os.path.join(OUTROOT, "replays"), exist_ok=True)
     h = hashlib.sha1(json.dumps(payload, sort_keys=True).encode()).hexdigest()[:10]
-    p = os.path.join(VERIF, "replays", "%s-%s.json" % (pid, h))
+    p = os.path.join(OUTROOT, "replays", "%s-%s.json" % (pid, h))
     with open(p, "w") as f:
         json.dump(payload, f, indent=1)
     return p
